@@ -131,6 +131,12 @@ pub trait Rep: QmcStepper + GraphWeights + SwapManagers + Clone + Send + Sync {
     /// all bond indices a manager of this sampler may ever be asked about
     fn bond_range(&self) -> usize;
     fn self_verify(&self) -> bool;
+    /// Snapshot / restore of a whole ladder through the library's serialisable form and JSON, then the
+    /// restored ladder and an in-memory twin (same RNG states) are advanced in lock-step. `None`: this
+    /// sampler kind has no serialisable ladder form. Ok((tempering steps, samples per replica)).
+    fn ladder_snapshot_lockstep(_reps: &[(Self, f64)], _seed: u64, _t: usize, _sf: usize, _mf: usize) -> Option<Result<(usize, usize), String>> {
+        None
+    }
 }
 
 fn ops_of<M: OpContainer>(m: &M) -> Vec<OpRec> {
@@ -201,6 +207,100 @@ impl Rep for IsingQ {
     fn self_verify(&self) -> bool {
         self.verify()
     }
+    fn ladder_snapshot_lockstep(reps: &[(Self, f64)], seed: u64, t: usize, sf: usize, mf: usize) -> Option<Result<(usize, usize), String>> {
+        Some(ising_snapshot_lockstep(reps, seed, t, sf, mf))
+    }
+}
+
+type PlainTC = TemperingContainer<RecRng, IsingQ>;
+
+fn plain_digest(tc: &PlainTC) -> Vec<Snap> {
+    tc.graph_ref().iter().map(|(q, _)| snap(q)).collect()
+}
+
+fn first_snap_diff(a: &[Snap], b: &[Snap]) -> Option<String> {
+    for (i, (x, y)) in a.iter().zip(b.iter()).enumerate() {
+        if x != y {
+            let n = |s: &Snap| s.slots.split(':').nth(1).map(|o| o.split('+').filter(|t| !t.is_empty()).count()).unwrap_or(0);
+            let what = if x.state != y.state {
+                "spin state"
+            } else if x.slots != y.slots {
+                "operator string"
+            } else if x.tag != y.tag {
+                "non-moving fields"
+            } else {
+                "cutoff"
+            };
+            return Some(format!("position {}: {} differs (in-memory n = {}, restored n = {})", i, what, n(x), n(y)));
+        }
+    }
+    if a.len() != b.len() { Some("ladder length differs".into()) } else { None }
+}
+
+/// in-memory ladder vs (SerializeTemperingContainer, rng, rngs) -> JSON -> `into_tempering_container_from_vec`
+pub fn ising_snapshot_lockstep(reps: &[(IsingQ, f64)], seed: u64, t: usize, sf: usize, mf: usize) -> Result<(usize, usize), String> {
+    let mk = || -> Result<PlainTC, String> {
+        let mut p: PlainTC = TemperingContainer::new(RecRng::new(seed));
+        for (q, b) in reps {
+            p.add_qmc_stepper(q.clone(), *b)?;
+        }
+        Ok(p)
+    };
+    let mut mem = mk()?;
+    let plain = mk()?;
+    let n = reps.len();
+    let mut res: PlainTC = catch(move || -> Result<PlainTC, String> {
+        let (stc, rng, rngs): (SerializeTemperingContainer<FastOps>, RecRng, Vec<SplitMix64>) = plain.into();
+        let text = serde_json::to_string(&stc).map_err(|e| e.to_string())?;
+        let stc2: SerializeTemperingContainer<FastOps> = serde_json::from_str(&text).map_err(|e| e.to_string())?;
+        Ok(stc2.into_tempering_container_from_vec(rng, rngs))
+    })
+    .map_err(|e| format!("snapshot/restore panicked: {}", e))??;
+    if let Some(d) = first_snap_diff(&plain_digest(&mem), &plain_digest(&res)) {
+        return Err(format!("restored ladder differs from the snapshotted one before any step: {}", d));
+    }
+    // lock-step rounds: time steps, compare; tempering step, compare
+    for round in 0..4usize {
+        let k = 1 + round % 3;
+        catch(|| {
+            mem.timesteps(k);
+            res.timesteps(k);
+        })
+        .map_err(|e| format!("time steps panicked: {}", e))?;
+        if let Some(d) = first_snap_diff(&plain_digest(&mem), &plain_digest(&res)) {
+            return Err(format!("restored ladder left lock-step with its in-memory twin after {} time steps of round {}: {}", k, round, d));
+        }
+        catch(|| {
+            mem.tempering_step();
+            res.tempering_step();
+        })
+        .map_err(|e| format!("tempering step panicked: {}", e))?;
+        if mem.get_total_swaps() != res.get_total_swaps() {
+            return Err(format!("round {}: swap decisions differ (total_swaps {} in memory, {} restored)", round, mem.get_total_swaps(), res.get_total_swaps()));
+        }
+        if let Some(d) = first_snap_diff(&plain_digest(&mem), &plain_digest(&res)) {
+            return Err(format!("round {}: after the tempering step {}", round, d));
+        }
+    }
+    // the driver: returned samples and energies
+    mem.rng_mut().take_log();
+    res.rng_mut().take_log();
+    let (ra, rb) = catch(|| (mem.timesteps_sample(t, sf, mf), res.timesteps_sample(t, sf, mf))).map_err(|e| format!("timesteps_sample panicked: {}", e))?;
+    if ra.len() != rb.len() || ra.iter().zip(rb.iter()).any(|(x, y)| x.0 != y.0) {
+        return Err("timesteps_sample: returned samples differ between the restored ladder and its in-memory twin".into());
+    }
+    if let Some((i, (x, y))) = ra.iter().zip(rb.iter()).enumerate().find(|(_, (x, y))| x.1 != y.1) {
+        return Err(format!("timesteps_sample: energy of position {} is {} in memory and {} after restore", i, x.1, y.1));
+    }
+    let (wa, wb) = (mem.rng_mut().take_log(), res.rng_mut().take_log());
+    if wa != wb {
+        return Err("container RNG consumption differs after restore".into());
+    }
+    if let Some(d) = first_snap_diff(&plain_digest(&mem), &plain_digest(&res)) {
+        return Err(format!("after timesteps_sample {}", d));
+    }
+    let nsw = if n >= 2 { wb.len() / n } else { t / sf };
+    Ok((nsw, ra.first().map(|x| x.0.len()).unwrap_or(t / mf)))
 }
 
 impl Rep for GenQ {
@@ -1780,7 +1880,7 @@ pub fn mode_generic_mixed(seed: u64, thorough: bool) {
                     _ => {}
                 }
             }
-            specs.push(GenSpec { nvars, inters: h, beta: if same_beta { b0 } else { g.range(1, 10) as f64 / 4.0 }, loops: l % 3 == 0, heatbath: false });
+            specs.push(GenSpec { nvars, inters: h, beta: if same_beta { b0 } else { g.range(1, 10) as f64 / 4.0 }, loops: l % 3 == 0, heatbath: l % 2 == 1 });
         }
         let reps: Result<Vec<(GenQ, f64)>, String> = specs.iter().map(|s| make_gen(s, g.next()).map(|q| (q, s.beta))).collect();
         let reps = match reps {
